@@ -399,6 +399,34 @@ def _omitted_value(wr, sl, f):
     return None
 
 
+def _len_calls_feeding(b, sw):
+    """the len() call sites whose result (possibly through a named local) is compared in switch block sw"""
+    t = b.blocks[sw]['term']
+    op = t['discr']
+    if op.get('k') not in ('copy', 'move'):
+        return []
+    out = []
+    seen = set()
+    work = [op['place']['local']]
+    while work:
+        l = work.pop()
+        if l in seen:
+            continue
+        seen.add(l)
+        for d in b.defs().get(l, []):
+            if d[0] == 'st':
+                rv = d[3]['rv']
+                for k in ('a', 'b', 'op'):
+                    o = rv.get(k)
+                    if isinstance(o, dict) and o.get('k') in ('copy', 'move') and not o['place']['proj']:
+                        work.append(o['place']['local'])
+            elif d[0] == 'call':
+                ct = b.blocks[d[1]]['term']
+                if cname(callee_name(ct)).split('::')[-1] == 'len':
+                    out.append((d[1], ct))
+    return out
+
+
 def _arrays(ctx, prog):
     pads = {}
 
@@ -414,12 +442,20 @@ def _arrays(ctx, prog):
                 if any(isinstance(g, tuple) and g[0] == 'bin' and g[1] == 'Eq' and util.const_val(g[3]) == 5 and 'len' in show(g[2], maxdepth=3) and v is True for g, v in gs):
                     pad = True
                     padv = strip(b.op_term(t['args'][-1], (bi, None)))
+        grow_sites = [bi for bi, t in b.calls() if cname(callee_name(t)) in ('Vec::push', 'Vec::resize', 'Vec::insert', 'Vec::extend_from_slice')]
         for t, d, rb in b.return_values():
             t = strip(t)
             if isinstance(t, tuple) and t[0] == 'agg' and 'Err' in t[1] and 'InvalidLength' in show(t, maxdepth=4):
-                gs = [(strip(g), opw.truth(k)) for g, k, sw in b.guard_terms(d[1])]
-                if any(isinstance(g, tuple) and g[0] == 'bin' and g[1] == 'Ne' and util.const_val(g[3]) == 6 and v is True for g, v in gs):
-                    err = True
+                for g, k, sw in b.guard_terms(d[1]):
+                    g = strip(g)
+                    if isinstance(g, tuple) and g[0] == 'bin' and g[1] == 'Ne' and util.const_val(g[3]) == 6 and opw.truth(k) is True:
+                        # the length that is compared must be measured after the padding: a len() taken before a push that can
+                        # still run on the way to this test is stale (a five-entry array is padded and then rejected as 5)
+                        lens = _len_calls_feeding(b, sw)
+                        stale = any(lt.get('target') is not None and b.reaches(lt['target'], gbi, avoid=(lbi,)) and b.reaches(gbi, sw, avoid=(lbi,))
+                                    for lbi, lt in lens for gbi in grow_sites)
+                        if lens and not stale:
+                            err = True
         return pad, err, padv
 
     for name, rty in (('read_offsets', 'Result<[f64; 6]'), ('read_sign_corrections', 'Result<[i8; 6]')):
